@@ -161,7 +161,7 @@ fn gen_limit(seed: u64, which: u64) -> Value {
             common.push(PDef { name, kind: PKind::UInt, col: Col::Seq });
         }
         let st = StoreDef { n: 3, common, variants: vec![], sort: None, unique_keys: false };
-        let case = DirCase { seed: rng.next(), vstores: vec![], stores: vec![st], indexes: vec![IndexDef { name: "index0".into(), store: 0, offset: 0, count: 3 }] };
+        let case = DirCase { seed: rng.next(), vstores: vec![], stores: vec![st], indexes: vec![IndexDef { name: "index0".into(), store: 0, offset: 0, count: 3 }], defer: 0 };
         let mut v = case.to_json();
         v["via"] = json!("mem");
         v["expect"] = json!(if target > 65_535 { "unrepresentable" } else { "representable" });
@@ -182,7 +182,7 @@ fn gen_limit(seed: u64, which: u64) -> Value {
             };
             let tail = 10 + 3 + 3 * (n - 1);
             (
-                DirCase { seed: rng.next(), vstores: vec![true], stores: vec![st], indexes: vec![IndexDef { name: "index0".into(), store: 0, offset: 0, count: n as u32 }] },
+                DirCase { seed: rng.next(), vstores: vec![true], stores: vec![st], indexes: vec![IndexDef { name: "index0".into(), store: 0, offset: 0, count: n as u32 }], defer: 0 },
                 if tail > 65535 { "unrepresentable" } else { "representable" },
                 format!("indexed value store tail of {tail} bytes"),
             )
@@ -194,7 +194,7 @@ fn gen_limit(seed: u64, which: u64) -> Value {
             let st = StoreDef { n: 3, common, variants: vec![], sort: None, unique_keys: false };
             let tail = 10 + nprops * (1 + 1 + 195);
             (
-                DirCase { seed: rng.next(), vstores: vec![], stores: vec![st], indexes: vec![IndexDef { name: "index0".into(), store: 0, offset: 0, count: 3 }] },
+                DirCase { seed: rng.next(), vstores: vec![], stores: vec![st], indexes: vec![IndexDef { name: "index0".into(), store: 0, offset: 0, count: 3 }], defer: 0 },
                 if nprops > 255 || tail > 65535 { "unrepresentable" } else { "representable" },
                 format!("{nprops} key infos, entry store tail of about {tail} bytes"),
             )
@@ -255,7 +255,9 @@ pub fn gen(seed: u64, tier: Tier, k: u64) -> Value {
     }
     let ns: Vec<usize> = stores.iter().map(|s| s.n).collect();
     let indexes = gen_windows(&mut rng, nstores, &ns);
-    let case = DirCase { seed: rng.next(), vstores, stores, indexes };
+    // integers handed over as immediate values, deferred words, or a per-entry mix of both
+    let defer = *rng.pick(&[0u8, 0, 1, 1, 2]);
+    let case = DirCase { seed: rng.next(), vstores, stores, indexes, defer };
     let mut v = case.to_json();
     v["via"] = json!(if rng.chance(1, 2) { "file" } else { "mem" });
     v
